@@ -5,6 +5,8 @@ import (
 	"errors"
 	"sync"
 	"sync/atomic"
+
+	"github.com/glebziz/fs_db/internal/verifhook"
 )
 
 type readWriter struct {
@@ -32,9 +34,11 @@ func (rw *readWriter) Read(p []byte) (n int, err error) {
 	defer rw.m.Unlock()
 
 	if !rw.closed.Load() && rw.buf.Len() == 0 {
+		verifhook.At("rw.read.beforeWait")
 		rw.cv.Wait()
 	}
 
+	verifhook.At("rw.read.take")
 	return rw.buf.Read(p)
 }
 
@@ -42,6 +46,7 @@ func (rw *readWriter) Write(p []byte) (n int, err error) {
 	rw.m.Lock()
 	defer func() {
 		rw.m.Unlock()
+		verifhook.At("rw.write.beforeSignal")
 		rw.cv.Signal()
 	}()
 
@@ -54,8 +59,11 @@ func (rw *readWriter) Write(p []byte) (n int, err error) {
 }
 
 func (rw *readWriter) Close() error {
+	verifhook.At("rw.close.enter")
 	rw.closed.Store(true)
+	verifhook.At("rw.close.beforeBroadcast")
 	rw.cv.Broadcast()
+	verifhook.At("rw.close.beforeWait")
 	rw.Wait()
 
 	return rw.err
